@@ -157,7 +157,7 @@ Lemma quiet_safe L T w ops p : quiet p -> th_safe L T w {| th_ops := ops; th_pc 
 Proof. unfold th_safe, quiet. cbn. destruct p as [| | | | | |[|n] k| | | | | | | | | | | | | | | | |]; tauto. Qed.
 
 Lemma quiet_next ops : quiet (snd (next_op_pc ops)).
-Proof. destruct ops as [|o [|o' r]]; exact I. Qed.
+Proof. destruct ops as [|o [|o' r]]; try exact I. cbn. destruct (no_start o'); exact I. Qed.
 Lemma quiet_after_add ops o : quiet (snd (after_add true ops o)).
 Proof. unfold after_add. destruct (is_begin o && true); [exact I|apply quiet_next]. Qed.
 Lemma quiet_add_start ops o : quiet (snd (add_start true ops o)).
@@ -240,8 +240,12 @@ Proof.
   - (* EWUnlock *)
     destruct wh; injection Hs as <-; (apply (InvS_goto _ _ th); [exact HI|exact Et|]); try quiet_tac.
     unfold th_safe. cbn. exact Hth.
-  - (* RBDone *) generic HI Et Hs th.
-  - (* RBCopy *) generic HI Et Hs th.
+  - (* RBDone *) head_cases Hs; injection Hs as <-; unfold to, goto;
+      (apply (InvS_goto _ _ th); [exact HI|exact Et|]); apply quiet_safe;
+      match goal with |- quiet (match ?x with _ => _ end) => destruct x end; exact I.
+  - (* RBCopy *) head_cases Hs; injection Hs as <-; unfold to, goto;
+      (apply (InvS_goto _ _ th); [exact HI|exact Et|]); apply quiet_safe;
+      match goal with |- quiet (match ?x with _ => _ end) => destruct x end; exact I.
   - (* RBStore *)
     injection Hs as <-. destruct HG as [HG _]. unfold upd in HG. cbn [g_wins] in HG.
     rewrite app_length, (is_len g HI) in HG. cbn in HG. lia.
@@ -266,7 +270,7 @@ Proof.
       assert (Hj' : in_range j (w0 g) = true).
       { rewrite <- Hj. symmetry. apply in_range_shape; [reflexivity|]. unfold w1. cbn [snd]. apply add_nth_length. }
       split; [exact Hj'|]. now apply slot_add. }
-    destruct o as [i|i|i]; cbn [op_index op_delta] in *.
+    unfold op_delta in *. set (i := op_index o) in *. destruct (op_kind o).
     + (* Begin *)
       destruct (g_last g <? i) eqn:El; norm.
       * apply InvS_upd with (th := th); [exact HI|exact Et|reflexivity|exact Hc0|exact Hle| | | | ]; cbn [gh_tracked gh_untimely nth].
